@@ -161,9 +161,9 @@ def classic_2mul(a: fp.Real, b: fp.Real):
     - the rounding mode is round-nearest.
     """
 
-    # the precision is that of the caller's context, not of `INTEGER`
+    # the precision is that of the caller's context; `ceil(p / 2)` is computed exactly
     p = core.max_p()
-    with fp.INTEGER:
+    with fp.REAL:
         s = fp.ceil(p / 2)
 
     ah, al = veltkamp_split(a, s)
